@@ -261,3 +261,4 @@ B("c01-snake-planes-4", "C01", "C01.R8", (R + "snake/env.py", "Snake.observation
 T("c01-twin-shape-tuple-attr", "C01", (R + "snake/env.py", "Snake.observation_spec", "expr", "(self.num_rows, self.num_cols, 5)", "(*self.board_shape, 5)"))
 B("c04-tetris-action-rows", "C04", "C04.R6", (P + "tetris/env.py", "Tetris.action_spec", "expr", "jnp.array([NUM_ROTATIONS, self.num_cols])", "jnp.array([NUM_ROTATIONS, self.num_rows])"))
 B("c04-connector-mask-spec", "C04", "C04.R6", (R + "connector/env.py", "Connector.observation_spec", "expr", "(self.num_agents, 5)", "(self.num_agents, 4)"))
+B("c04-cvrp-mask-capacity-strict", "C04", "C04.R3b", (R + "cvrp/env.py", "CVRP._state_to_observation", "expr", "state.capacity >= state.demands", "state.capacity > state.demands"))
